@@ -653,3 +653,53 @@ def prop_implies(f, g) -> Optional[Dict[str, bool]]:
 
 def parse_guard(text: str):
     return formula_of(ast.parse(text, mode='eval').body)
+
+
+def none_truth(f, term: str):
+    """truth of a guard as a function of `term is None`: {True: b1, False: b0}; None when the
+    guard depends on anything else"""
+    def ev(f, isnone: bool):
+        k = f[0]
+        if k in ('true', 'iter'):
+            return True
+        if k == 'false':
+            return False
+        if k == 'not':
+            return not ev(f[1], isnone)
+        if k == 'and':
+            return all(ev(x, isnone) for x in f[1:])
+        if k == 'or':
+            return any(ev(x, isnone) for x in f[1:])
+        if k == 'atom':
+            e = f[1]
+            if isinstance(e, ast.Compare) and len(e.ops) == 1 and \
+                    isinstance(e.ops[0], (ast.Is, ast.IsNot, ast.Eq, ast.NotEq)):
+                l, r = e.left, e.comparators[0]
+                for a, b in ((l, r), (r, l)):
+                    if src(a) == term and isinstance(b, ast.Constant) and b.value is None:
+                        return isnone == isinstance(e.ops[0], (ast.Is, ast.Eq))
+        raise KeyError(show(f))
+    try:
+        return {True: ev(f, True), False: ev(f, False)}
+    except KeyError:
+        return None
+
+
+def returns_by_none(w: 'GuardWalk', term: str) -> Optional[Dict[bool, str]]:
+    """the text of the value returned when `term` is None and when it is not (first return
+    in program order whose guard holds); None if a guard depends on anything else"""
+    out: Dict[bool, str] = {}
+    for isnone in (True, False):
+        for e in w.events:
+            if e.kind not in ('return', 'raise'):
+                continue
+            t = none_truth(w.expand_formula(strip_iter(e.guard)), term)
+            if t is None:
+                return None
+            if t[isnone]:
+                out[isnone] = 'raise' if e.kind == 'raise' else \
+                    (src(w.expand(e.value)) if e.value is not None else 'None')
+                break
+        else:
+            out[isnone] = 'None'
+    return out
